@@ -93,4 +93,209 @@ theorem readFrame_encodeBytes (b rest : Bytes) (hl : b.length < 2 ^ 24) :
     rw [e]
     split <;> simp <;> omega
 
+/-! ### Python int <-> bytes -/
+
+theorem intLE_length (w : Nat) (i : Int) : (intLE w i).length = w := by simp [intLE]
+
+theorem intOfLE_intLE4 (i : Int) (h1 : -2^31 ≤ i) (h2 : i < 2^31) : intOfLE (intLE 4 i) = i := by
+  unfold intOfLE
+  simp only [intLE_length]
+  unfold intLE
+  rw [natOfLE_natToLE]
+  simp only [Nat.reducePow, Nat.reduceMul, Nat.reduceSub]
+  split <;> omega
+
+theorem intOfLE_intLE8 (i : Int) (h1 : -2^63 ≤ i) (h2 : i < 2^63) : intOfLE (intLE 8 i) = i := by
+  unfold intOfLE
+  simp only [intLE_length]
+  unfold intLE
+  rw [natOfLE_natToLE]
+  simp only [Nat.reducePow, Nat.reduceMul, Nat.reduceSub]
+  split <;> omega
+
+theorem natOfLE_intLE4 (i : Int) (h1 : 0 ≤ i) (h2 : i < 2^32) : (natOfLE (intLE 4 i) : Int) = i := by
+  unfold intLE
+  rw [natOfLE_natToLE]
+  simp only [Nat.reducePow]
+  omega
+
+theorem intToLE?_4 (i : Int) (h1 : -2^31 ≤ i) (h2 : i < 2^31) : intToLE? 4 i = some (intLE 4 i) := by
+  unfold intToLE?
+  simp only [Nat.reduceMul, Nat.reduceSub]
+  rw [if_pos ⟨by omega, by omega⟩]
+
+theorem intToLE?_8 (i : Int) (h1 : -2^63 ≤ i) (h2 : i < 2^63) : intToLE? 8 i = some (intLE 8 i) := by
+  unfold intToLE?
+  simp only [Nat.reduceMul, Nat.reduceSub]
+  rw [if_pos ⟨by omega, by omega⟩]
+
+theorem natToLE?_4 (i : Int) (h1 : 0 ≤ i) (h2 : i < 2^32) : natToLE? 4 i = some (intLE 4 i) := by
+  unfold natToLE?
+  simp only [Nat.reduceMul]
+  rw [if_pos ⟨by omega, by omega⟩]
+
+theorem intLE_ofNat (n : Nat) (h : n < 2^32) : intLE 4 (n : Int) = natToLE 4 n := by
+  unfold intLE
+  congr 1
+  simp only [Nat.reducePow]
+  omega
+
+/-! ### the serialiser emits the TL encoding -/
+
+def SerOK (T : Table) (fuel : Nat) : Item → Bytes → Prop
+  | .one e _ v, bs => serOne T (serObj T fuel) e v = some bs
+  | .many e vs, bs => serMany (serOne T (serObj T fuel) e) vs = some bs
+  | .field a v, bs => serArg T (serObj T fuel) a v = some bs
+  | .body args whole, bs => serBody T (serObj T fuel) args whole = some bs
+
+theorem succ_of_le {N fuel : Nat} (h : N + 1 ≤ fuel) : ∃ k, fuel = k + 1 ∧ N ≤ k := ⟨fuel - 1, by omega, by omega⟩
+
+theorem wire (T : Table) (P : Bytes → Prop) {item : Item} {bs : Bytes} (h : Enc T P item bs) :
+    ∃ N, ∀ fuel, N ≤ fuel → SerOK T fuel item bs := by
+  induction h with
+  | int h1 h2 => exact ⟨0, fun fuel _ => by simp [SerOK, serOne, serFixed, fixedLen, intToLE?_4 _ h1 h2]⟩
+  | long h1 h2 => exact ⟨0, fun fuel _ => by simp [SerOK, serOne, serFixed, fixedLen, intToLE?_8 _ h1 h2]⟩
+  | nat h1 h2 => exact ⟨0, fun fuel _ => by simp [SerOK, serOne, serFixed, fixedLen, natToLE?_4 _ h1 h2]⟩
+  | int128 h1 h2 => exact ⟨0, fun fuel _ => by simp [SerOK, serOne, serFixed]⟩
+  | int256 h1 h2 => exact ⟨0, fun fuel _ => by simp [SerOK, serOne, serFixed]⟩
+  | boolT => exact ⟨0, fun fuel _ => by simp [SerOK, serOne, serFixed, boolTrueId, natToLE]⟩
+  | boolF => exact ⟨0, fun fuel _ => by simp [SerOK, serOne, serFixed, boolFalseId, natToLE]⟩
+  | bytes h1 h2 h3 => exact ⟨0, fun fuel _ => by simp [SerOK, serOne, frame_eq_encodeBytes]⟩
+  | string h1 h2 h3 h4 => exact ⟨0, fun fuel _ => by simp [SerOK, serOne, frame_eq_encodeBytes]⟩
+  | bare hn hc hb ih =>
+    obtain ⟨N, hN⟩ := ih
+    refine ⟨N + 1, fun fuel hf => ?_⟩
+    obtain ⟨k, rfl, hk⟩ := succ_of_le hf
+    have := hN k hk
+    simp only [SerOK] at this
+    simp [SerOK, serOne, hn, objFields?, serObj, this]
+  | boxed hm hn hc hb ih =>
+    obtain ⟨N, hN⟩ := ih
+    refine ⟨N + 1, fun fuel hf => ?_⟩
+    obtain ⟨k, rfl, hk⟩ := succ_of_le hf
+    have := hN k hk
+    simp only [SerOK] at this
+    simp only [SerOK, serOne]
+    rename_i iv cl c fs bs
+    cases hcl : T.byClass cl with
+    | nil => rw [hcl] at hm; cases hm
+    | cons c0 rest =>
+      cases rest with
+      | nil =>
+        rw [hcl] at hm
+        simp only [List.mem_singleton] at hm
+        subst hm
+        simp [objFields?, serObj, this]
+      | cons c1 rest => simp [hn, serObj, this]
+  | manyNil => exact ⟨0, fun fuel _ => by simp [SerOK, serMany]⟩
+  | manyCons h1 h2 ih1 ih2 =>
+    obtain ⟨N1, hN1⟩ := ih1
+    obtain ⟨N2, hN2⟩ := ih2
+    refine ⟨max N1 N2, fun fuel hf => ?_⟩
+    have a := hN1 fuel (by omega)
+    have b := hN2 fuel (by omega)
+    simp only [SerOK] at a b
+    simp [SerOK, serMany, a, b]
+  | scalar hv h1 ih =>
+    obtain ⟨N, hN⟩ := ih
+    refine ⟨N, fun fuel hf => ?_⟩
+    have a := hN fuel hf
+    simp only [SerOK] at a
+    simp [SerOK, serArg, hv, a]
+  | vector hv hl hb h1 ih =>
+    obtain ⟨N, hN⟩ := ih
+    refine ⟨N, fun fuel hf => ?_⟩
+    have a := hN fuel hf
+    simp only [SerOK] at a
+    rename_i a0 vs bs
+    have e : natToLE? 4 (vs.length : Int) = some (natToLE 4 vs.length) := by
+      rw [natToLE?_4 _ (by omega) (by omega), intLE_ofNat _ hl]
+    simp [SerOK, serArg, hv, a, e]
+  | bodyNil => exact ⟨0, fun fuel _ => by simp [SerOK, serBody]⟩
+  | bodyReq hc hl h1 h2 ih1 ih2 =>
+    obtain ⟨N1, hN1⟩ := ih1
+    obtain ⟨N2, hN2⟩ := ih2
+    refine ⟨max N1 N2, fun fuel hf => ?_⟩
+    have a := hN1 fuel (by omega)
+    have b := hN2 fuel (by omega)
+    simp only [SerOK] at a b
+    simp [SerOK, serBody, hl, a, b]
+  | bodyOn hc hf h0 hb hl h1 h2 ih1 ih2 =>
+    obtain ⟨N1, hN1⟩ := ih1
+    obtain ⟨N2, hN2⟩ := ih2
+    refine ⟨max N1 N2, fun fuel hf => ?_⟩
+    have a := hN1 fuel (by omega)
+    have b := hN2 fuel (by omega)
+    simp only [SerOK] at a b
+    simp [SerOK, serBody, hl, a, b]
+  | bodyOff hc hf h0 hb hl h1 ih =>
+    obtain ⟨N, hN⟩ := ih
+    refine ⟨N, fun fuel hf => ?_⟩
+    have a := hN fuel hf
+    simp only [SerOK] at a
+    simp [SerOK, serBody, hl, hc, a]
+
+/-! ### table conditions, flag lookup -/
+
+/-- the flags variable of every conditional field precedes it and is what `result.get('mode', result.get('flags'))` finds. -/
+def condOK (T : Table) : List Arg → List Arg → Bool
+  | _, [] => true
+  | pre, a :: as =>
+    (match a.cond with
+      | none => true
+      | some (fl, _) =>
+        pre.any (fun f => f.name == fl) &&
+          (fl == T.modeKey || (fl == T.flagsKey && pre.all (fun f => f.name != T.modeKey)))) &&
+    condOK T (pre ++ [a]) as
+
+def ctorOK (T : Table) (c : Ctor) : Bool :=
+  decide (c.id < 2 ^ 32) && condOK T [] c.args &&
+    (match T.byId c.id with
+      | some c' => c'.name == c.name && c'.args == c.args
+      | none => false)
+
+def TableOK (T : Table) : Prop := ∀ c ∈ T.ctors, ctorOK T c = true
+
+theorem lookup_canonFields (pre : List Arg) (whole : Fields) (k : Nat) :
+    (canonFields pre whole).lookup k = if pre.any (fun f => f.name == k) then whole.lookup k else none := by
+  induction pre with
+  | nil => simp [canonFields]
+  | cons a pre ih =>
+    unfold canonFields at ih ⊢
+    simp only [List.filterMap_cons, List.any_cons]
+    cases hl : whole.lookup a.name with
+    | none =>
+      simp only [Option.map_none, ih]
+      by_cases hk : a.name = k
+      · subst hk; simp [hl]
+      · have : (a.name == k) = false := by simpa using hk
+        simp [this]
+    | some v =>
+      simp only [Option.map_some, List.lookup_cons, ih]
+      by_cases hk : a.name = k
+      · subst hk; simp [hl]
+      · have h1 : (a.name == k) = false := by simpa using hk
+        have h2 : (k == a.name) = false := by simpa using (fun h => hk h.symm)
+        simp [h1, h2]
+
+theorem canonFields_append (p q : List Arg) (whole : Fields) :
+    canonFields (p ++ q) whole = canonFields p whole ++ canonFields q whole := by
+  simp [canonFields, List.filterMap_append]
+
+theorem flagVal_canon (T : Table) (pre : List Arg) (whole : Fields) (fl : Nat) (x : Val)
+    (h1 : pre.any (fun f => f.name == fl) = true)
+    (h2 : (fl == T.modeKey || (fl == T.flagsKey && pre.all (fun f => f.name != T.modeKey))) = true)
+    (hl : whole.lookup fl = some x) : flagVal T (canonFields pre whole) = some x := by
+  unfold flagVal
+  rw [lookup_canonFields, lookup_canonFields]
+  simp only [Bool.or_eq_true, Bool.and_eq_true, beq_iff_eq] at h2
+  rcases h2 with h2 | ⟨h2, h3⟩
+  · subst h2; simp [h1, hl]
+  · subst h2
+    have : pre.any (fun f => f.name == T.modeKey) = false := by
+      simp only [List.all_eq_true, bne_iff_ne, ne_eq] at h3
+      simp only [List.any_eq_false, beq_iff_eq]
+      exact fun f hf => h3 f hf
+    simp [this, h1, hl]
+
 end TonVerif.Proofs.Tl
